@@ -18,7 +18,7 @@ use crate::{
             },
         },
         format::format_part,
-        offset::{add_offset_to_dn, remove_offset_from_dn},
+        offset::{add_offset_to_dn, remove_offset_from_dn, try_remove_offset_from_dn},
         parse::{
             parse_format_string, parse_offset, parse_part, remove_escaped_part, remove_part,
             unescape_part, ParseUnit, ParsedDate, ParsedTime, Period,
@@ -641,7 +641,7 @@ impl DateUtilities for DateTime {
         let new_days = set_year(days, year)?;
 
         Ok(Self {
-            days: remove_offset_from_dn(new_days, nanoseconds, offset_seconds).0,
+            days: try_remove_offset_from_dn(new_days, nanoseconds, offset_seconds)?.0,
             nanoseconds: self.nanoseconds,
             offset: self.offset,
         })
@@ -654,7 +654,7 @@ impl DateUtilities for DateTime {
         let new_days = set_month(days, month)?;
 
         Ok(Self {
-            days: remove_offset_from_dn(new_days, nanoseconds, offset_seconds).0,
+            days: try_remove_offset_from_dn(new_days, nanoseconds, offset_seconds)?.0,
             nanoseconds: self.nanoseconds,
             offset: self.offset,
         })
@@ -667,7 +667,7 @@ impl DateUtilities for DateTime {
         let new_days = set_day(days, day)?;
 
         Ok(Self {
-            days: remove_offset_from_dn(new_days, nanoseconds, offset_seconds).0,
+            days: try_remove_offset_from_dn(new_days, nanoseconds, offset_seconds)?.0,
             nanoseconds: self.nanoseconds,
             offset: self.offset,
         })
@@ -680,7 +680,7 @@ impl DateUtilities for DateTime {
         let new_days = set_day_of_year(days, day_of_year)?;
 
         Ok(Self {
-            days: remove_offset_from_dn(new_days, nanoseconds, offset_seconds).0,
+            days: try_remove_offset_from_dn(new_days, nanoseconds, offset_seconds)?.0,
             nanoseconds: self.nanoseconds,
             offset: self.offset,
         })
@@ -894,7 +894,7 @@ impl TimeUtilities for DateTime {
 
         let new_nanos = set_hour(nanos, hour)?;
 
-        let (new_days, new_nanos) = remove_offset_from_dn(days, new_nanos, offset_seconds);
+        let (new_days, new_nanos) = try_remove_offset_from_dn(days, new_nanos, offset_seconds)?;
 
         Ok(Self {
             days: new_days,
@@ -910,7 +910,7 @@ impl TimeUtilities for DateTime {
 
         let new_nanos = set_minute(nanos, minute)?;
 
-        let (new_days, new_nanos) = remove_offset_from_dn(days, new_nanos, offset_seconds);
+        let (new_days, new_nanos) = try_remove_offset_from_dn(days, new_nanos, offset_seconds)?;
 
         Ok(Self {
             days: new_days,
@@ -926,7 +926,7 @@ impl TimeUtilities for DateTime {
 
         let new_nanos = set_second(nanos, second)?;
 
-        let (new_days, new_nanos) = remove_offset_from_dn(days, new_nanos, offset_seconds);
+        let (new_days, new_nanos) = try_remove_offset_from_dn(days, new_nanos, offset_seconds)?;
 
         Ok(Self {
             days: new_days,
@@ -942,7 +942,7 @@ impl TimeUtilities for DateTime {
 
         let new_nanos = set_milli(nanos, milli)?;
 
-        let (new_days, new_nanos) = remove_offset_from_dn(days, new_nanos, offset_seconds);
+        let (new_days, new_nanos) = try_remove_offset_from_dn(days, new_nanos, offset_seconds)?;
 
         Ok(Self {
             days: new_days,
@@ -958,7 +958,7 @@ impl TimeUtilities for DateTime {
 
         let new_nanos = set_micro(nanos, micro)?;
 
-        let (new_days, new_nanos) = remove_offset_from_dn(days, new_nanos, offset_seconds);
+        let (new_days, new_nanos) = try_remove_offset_from_dn(days, new_nanos, offset_seconds)?;
 
         Ok(Self {
             days: new_days,
@@ -974,7 +974,7 @@ impl TimeUtilities for DateTime {
 
         let new_nanos = set_nano(nanos, nano)?;
 
-        let (new_days, new_nanos) = remove_offset_from_dn(days, new_nanos, offset_seconds);
+        let (new_days, new_nanos) = try_remove_offset_from_dn(days, new_nanos, offset_seconds)?;
 
         Ok(Self {
             days: new_days,
